@@ -914,7 +914,15 @@ func (c *vfC01Conf) kindSet() (s string) {
 
 // vfC01Case runs one configuration with its queries against w.
 func vfC01Case(t *rapid.T, c *vfC01Conf, w *vfWorld, run func(q vfQuery) *vfOutcome, nq int, tag string) {
+	vfC01CaseSettle(t, c, w, run, nq, tag, 0)
+}
+
+// vfC01CaseSettle is vfC01Case for a server whose rule engines are rebuilt in
+// the background after a run-time change: a deviating outcome is asked for
+// again until settle has passed, and only then is it a failure.
+func vfC01CaseSettle(t *rapid.T, c *vfC01Conf, w *vfWorld, run func(q vfQuery) *vfOutcome, nq int, tag string, settle time.Duration) {
 	m := vfNewC01Model(c)
+	deadline := time.Now().Add(settle)
 	for i := 0; i < nq; i++ {
 		q := vfDrawC01Query(t, c, fmt.Sprintf("q%d", i))
 		want := m.reference(q)
@@ -953,11 +961,21 @@ func vfC01Case(t *rapid.T, c *vfC01Conf, w *vfWorld, run func(q vfQuery) *vfOutc
 			vfC01.Sample(tag+want.Why, s)
 		}
 
-		var err error
-		if want.Blocked {
-			err = vfCheckBlocked(c, q, want, o)
-		} else {
-			err = vfCheckForwarded(q, o)
+		check := func(o *vfOutcome) (err error) {
+			if want.Blocked {
+				return vfCheckBlocked(c, q, want, o)
+			}
+
+			return vfCheckForwarded(q, o)
+		}
+		err := check(o)
+		for err != nil && settle > 0 && time.Now().Before(deadline) {
+			time.Sleep(20 * time.Millisecond)
+			o = run(q.vfQuery)
+			err = check(o)
+			if err == nil {
+				vfC01.Class(tag + "settled_after_retry")
+			}
 		}
 		if err != nil {
 			t.Fatalf("%s%s %s (client=%s, rel=%s): expected %s (blocked=%t): %v\nconfig: %v",
